@@ -176,12 +176,14 @@ pub fn img_ctor(case: &Value, out: &mut Map<String, Value>) {
             );
         }
         let small = (w as u64) * (h as u64) <= 4096;
+        // "use": the accepted object is used in any case (an accepted image must be usable: no panic afterwards)
+        let force_use = case.get("use").and_then(|u| u.as_u64()).unwrap_or(0) == 1;
         match kind {
             "Image::from_slice_u8" => {
                 let r = Image::from_slice_u8(w, h, b.as_mut_slice(), pt);
                 o.insert("ret".into(), json!(res_str(&r)));
                 if let Ok(img) = &r {
-                    if !small || w == 0 || h == 0 {
+                    if !small || w == 0 || h == 0 || force_use {
                         try_use(img, pt, &mut o);
                     }
                 }
@@ -193,7 +195,7 @@ pub fn img_ctor(case: &Value, out: &mut Map<String, Value>) {
                 // a Vec<u8> may be arbitrarily aligned: record the error kind only for size
                 o.insert("ret".into(), json!(res_str(&r)));
                 if let Ok(img) = &r {
-                    if !small || w == 0 || h == 0 {
+                    if !small || w == 0 || h == 0 || force_use {
                         try_use(img, pt, &mut o);
                     }
                 }
@@ -202,7 +204,7 @@ pub fn img_ctor(case: &Value, out: &mut Map<String, Value>) {
                 let r = ImageRef::new(w, h, b.as_slice(), pt);
                 o.insert("ret".into(), json!(res_str(&r)));
                 if let Ok(img) = &r {
-                    if !small || w == 0 || h == 0 {
+                    if !small || w == 0 || h == 0 || force_use {
                         try_use(img, pt, &mut o);
                     }
                 }
